@@ -76,7 +76,7 @@ META = {
  "C17": dict(
   text="Structure-aware random generation of tier1 and tier2 requests with every field of every module free, plus valid generated graphs with one field broken, run through the server's sequence (ValidateTier1/2Request, exec.NewOutputModuleGraph incl. hashing and staging, BuildRequestDetails, BuildTier1RequestPlan): every call must return without panic, within 10 s, allocating < 256 MiB, and a rejection caused by the request must reach the client as invalid_argument (the error is wrapped as Tier1Service.blocks wraps it and mapped with the service's own toConnectError).",
   design_ref="DESIGN.md section 3, C17",
-  note="Requests are encoded to the wire and decoded again, so only shapes a client can actually send are judged; the tier2 stage index is kept in range (not in the property's list).",
+  note="Requests are encoded to the wire and decoded again, so only shapes a client can actually send are judged. TestC17Tier2 hands segment-job requests with a free stage number, segment number, segment size and output module to the exported Tier2Service.ProcessRange in process: nil or a status error, no panic, no hang, out-of-range stages rejected as invalid_argument (found and repaired: 29adf1e0).",
   technique="rapid structure-aware random generation with crash/hang/allocation oracle; thorough tier adds native coverage-guided fuzzing of the wire bytes (FuzzC17Request)"),
  "C18": dict(
   text="Differential round-trip random testing of the hand-written codecs against google.golang.org/protobuf: Map.MarshalFast -> proto.Unmarshal(Array), proto.Marshal(Array) -> Map.UnmarshalFast, fast round trip; every store marshaller reads back what it wrote; VTproto/ProtoingFast bytes decode with proto.Unmarshal and proto.Marshal bytes decode with the VTproto decoder; reported size == sum(len k+len v).",
